@@ -691,6 +691,30 @@ def check_family(ctx, fam, rng, quick, budget):
                               f"piece no longer have their own sampling points ({describe(oc)})",
                               {**base, "op": "concatenate-foreign-grid", "arrangement": name})
 
+    # ---- monitor: pieces that do NOT share their sampling-points object (a freshly built dataset on an equal grid, a copy,
+    #      a piece that went through an operation) concatenate exactly like the raw pieces of one parent
+    if fam.kind == "dense" and n >= 2:
+        import copy as _copy
+        twin = fd.dense(np.array(fam.t, copy=True), np.array(fam.x, copy=True))
+        separately = {"subset + freshly built dataset": lambda: [parent[0:1], twin[1:n]],
+                      "two datasets built separately": lambda: [fd.dense(np.array(fam.t, copy=True), np.array(fam.x[:1], copy=True)),
+                                                                fd.dense(np.array(fam.t, copy=True), np.array(fam.x[1:], copy=True))],
+                      "deep copies of the pieces": lambda: [_copy.deepcopy(parent[0:1]), _copy.deepcopy(parent[1:n])],
+                      "pieces after an operation": lambda: [parent[0:1] + 0.0, parent[1:n] * 1.0]}
+        for name, mk in separately.items():
+            oc = outcome(lambda: cls.concatenate(*mk()))
+            rep.case((fam.kind, n, "separate", name), kind=fam.kind + "/concat-separately-built")
+            good = oc[0] == "ok"
+            if good:
+                try:
+                    good = (oc[1].n_obs == n and np.array_equal(np.asarray(oc[1].values, float), np.asarray(fam.x, float))
+                            and np.array_equal(np.asarray(oc[1].argvals["input_dim_0"], float), np.asarray(fam.t, float)))
+                except Exception:  # noqa: BLE001
+                    good = False
+            if not good:
+                rep.violation(f"dense concatenate of pieces on EQUAL grids that are separate objects ({name}) does not give the "
+                              f"parent back ({describe(oc)})", {**base, "op": "concatenate-separately-built", "arrangement": name})
+
     # ---- multivariate normalize (the library's own use of iterate + concatenate)
     if is_multi(fam):
         oc = outcome(lambda: parent.normalize())
